@@ -44,6 +44,26 @@ Theorem C12_change_key_log_length old new n v v' evs : change_password old new n
 Proof. exact (change_log_length key id plain key_eqb old new n v v' evs). Qed.
 End C12.
 
+(* account password change: the identity vault is re-encrypted entry by entry, in order
+   (C12_change_key_preserves applied to it), so every URN lookup — the saved folder passwords —
+   gives what it gave before; what a lookup gives is the key saved last *)
+Section C12Identity.
+Variables urn kval : Type.
+Variable urn_eqb : urn -> urn -> bool.
+Hypothesis urn_eqb_spec : forall a b, urn_eqb a b = true <-> a = b.
+Theorem C12_saved_key_is_found l u k :
+  id_lookup urn kval urn_eqb (id_save urn kval l u k) u = Some k.
+Proof. exact (id_save_found urn kval urn_eqb urn_eqb_spec l u k). Qed.
+Theorem C12_other_keys_untouched l u k u' : u <> u' ->
+  id_lookup urn kval urn_eqb (id_save urn kval l u k) u' = id_lookup urn kval urn_eqb l u'.
+Proof. exact (id_save_other urn kval urn_eqb urn_eqb_spec l u k u'). Qed.
+End C12Identity.
+(* a rebuild that kept the first entry per URN would hand back the stale key *)
+Theorem C12_dedupe_first_refuted :
+  id_lookup nat nat Nat.eqb (id_save nat nat [(1, 10)] 1 11) 1 = Some 11 /\
+  id_lookup nat nat Nat.eqb (dedupe_first nat nat Nat.eqb [] (id_save nat nat [(1, 10)] 1 11)) 1 = Some 10.
+Proof. exact dedupe_first_changes_lookup. Qed.
+
 Example C12_nonvacuous_change :
   exists v' evs, change_password nat nat nat Nat.eqb 1 2 10%N
     (mkEV _ _ _ (Enc _ _ 1 0%N 100) [(7, (Enc _ _ 1 1%N 101, Enc _ _ 1 2%N 102))]) = Some (v', evs) /\ length evs = 2.
@@ -54,3 +74,6 @@ Print Assumptions C12_change_key_preserves.
 Print Assumptions C12_no_old_ciphertext.
 Print Assumptions C12_old_key_rejected.
 Print Assumptions C12_change_key_log_length.
+Print Assumptions C12_saved_key_is_found.
+Print Assumptions C12_other_keys_untouched.
+Print Assumptions C12_dedupe_first_refuted.
